@@ -45,6 +45,29 @@ def pow2_exponent(e):
     return None
 
 
+def bounds_names(fn):
+    """(min name, max name, the statement that calls _get_bounds) - the pair may be unpacked in the same statement
+    (`lo, hi = _get_bounds(..)`, `b = lo, hi = _get_bounds(..)`) or from the name the result was bound to
+    (`b = _get_bounds(..)` ; `lo, hi = b`)."""
+    mn = mx = st = None
+    for n in walk_no_nested(strip_docstring(fn.node.body)):
+        if isinstance(n, ast.Assign) and isinstance(n.value, ast.Call) and call_name(n.value) == '_get_bounds':
+            st = n
+            whole = None
+            for t in n.targets:
+                if isinstance(t, ast.Tuple) and len(t.elts) == 2 and all(isinstance(e, ast.Name) for e in t.elts):
+                    mn, mx = t.elts[0].id, t.elts[1].id
+                elif isinstance(t, ast.Name):
+                    whole = t.id
+            if mn is None and whole is not None:
+                for m in walk_no_nested(strip_docstring(fn.node.body)):
+                    if isinstance(m, ast.Assign) and is_name(m.value, whole) and len(m.targets) == 1 \
+                            and isinstance(m.targets[0], ast.Tuple) and len(m.targets[0].elts) == 2 \
+                            and all(isinstance(e, ast.Name) for e in m.targets[0].elts):
+                        mn, mx = m.targets[0].elts[0].id, m.targets[0].elts[1].id
+    return mn, mx, st
+
+
 def rel_methods(P, cls='PCBO'):
     out = {}
     for r in RELS:
@@ -303,12 +326,7 @@ def early_exits(ctx, rid, fn):
     body = strip_docstring(fn.node.body)
     last = body[-1] if body else None
     bad = []
-    mn = mx = None
-    for n in walk_no_nested(body):
-        if isinstance(n, ast.Assign) and isinstance(n.value, ast.Call) and call_name(n.value) == '_get_bounds':
-            for t in n.targets:
-                if isinstance(t, ast.Tuple) and len(t.elts) == 2:
-                    mn, mx = src(t.elts[0]), src(t.elts[1])
+    mn, mx, _ = bounds_names(fn)
     allowed = {'lam', mn, mx, 'suppress_warnings', 'log_trick', 'bounds'}
     for r in [n for n in g.stmts() if isinstance(n, ast.Return) and n is not last]:
         # an early return may depend only on the weight, the bounds of P and the options (or follow a special-case
@@ -553,8 +571,8 @@ def slack_guards(ctx, rid, fns):
                 for v in defs:
                     if isinstance(v.op, ast.Sub):
                         offs = src(v.right)
-                mn = None
-                for m_ in walk_no_nested(strip_docstring(fn.node.body)):
+                mn = bounds_names(fn)[0]
+                for m_ in ([] if mn else walk_no_nested(strip_docstring(fn.node.body))):
                     if isinstance(m_, ast.Assign) and (is_name(m_.value, 'bounds') or (isinstance(m_.value, ast.Call) and call_name(m_.value) == '_get_bounds')):
                         for t_ in m_.targets:
                             if isinstance(t_, ast.Tuple) and len(t_.elts) == 2:
@@ -808,12 +826,9 @@ def bounds_handoff(ctx, rid, fn):
     selfn = R.self_name(fn)
     pname = fn.params[1]
     # names unpacked from _get_bounds
-    mn = mx = None
-    for n in walk_no_nested(strip_docstring(fn.node.body)):
-        if isinstance(n, ast.Assign) and isinstance(n.value, ast.Call) and call_name(n.value) == '_get_bounds':
-            for t in n.targets:
-                if isinstance(t, ast.Tuple) and len(t.elts) == 2 and all(isinstance(e, ast.Name) for e in t.elts):
-                    mn, mx = t.elts[0].id, t.elts[1].id
+    mn, mx, gbst = bounds_names(fn)
+    for n in [gbst] if gbst is not None else []:
+        if True:
             gb = n.value
             okp = bool(gb.args) and is_name(gb.args[0], pname) and (
                 len(gb.args) > 1 and is_name(gb.args[1], 'bounds') or is_name(kwarg(gb, 'bounds') or ast.Constant(0), 'bounds'))
@@ -956,12 +971,7 @@ def penalty_sign(ctx, rid, fn):
     selfn = R.self_name(fn)
     pname = fn.params[1]
     g = cfg_of(fn.node)
-    mn = mx = None
-    for n in walk_no_nested(strip_docstring(fn.node.body)):
-        if isinstance(n, ast.Assign) and isinstance(n.value, ast.Call) and call_name(n.value) == '_get_bounds':
-            for t in n.targets:
-                if isinstance(t, ast.Tuple) and len(t.elts) == 2:
-                    mn, mx = src(t.elts[0]), src(t.elts[1])
+    mn, mx, _ = bounds_names(fn)
     for n in g.stmts():
         if not (isinstance(n, ast.AugAssign) and is_name(n.target, selfn)):
             continue
